@@ -89,6 +89,7 @@ type FuncContract struct {
 	Bounded map[string]Clause // ensures label -> bound under which it is checked (a bounded stand-in, not a proof)
 	IsIface     bool // contract on an interface method (no body to verify)
 	Reveals     map[string]bool // hidden pure functions whose definition this function's proof may use
+	OnlyProp    map[string]string // clause label -> the one property it belongs to
 	Logged      bool   // maintain call-log ghost variables calls_<Name>, arg_<Name>_<param>
 	LogName     string
 	Trusted     bool
@@ -140,7 +141,7 @@ type ContractFile struct {
 var clauseKeywords = map[string]bool{
 	"func": true, "lemma": true, "extern": true, "opaque": true, "pure": true, "props": true, "arith": true,
 	"requires": true, "ensures": true, "modifies": true, "loop": true, "inline": true, "trusted": true,
-	"nosafe": true, "effectfree": true, "uses": true, "ghost": true, "assigns": true, "logged": true, "callsite": true, "where": true, "global": true, "recvfrom": true, "sets": true, "coretypes": true, "appends": true, "splitreturns": true, "purecallback": true, "bounded": true, "reveal": true,
+	"nosafe": true, "effectfree": true, "uses": true, "ghost": true, "assigns": true, "logged": true, "callsite": true, "where": true, "global": true, "recvfrom": true, "sets": true, "coretypes": true, "appends": true, "splitreturns": true, "purecallback": true, "bounded": true, "reveal": true, "onlyprop": true,
 }
 
 var labelRe = regexp.MustCompile(`^([A-Za-z_][A-Za-z0-9_]*)\s*:\s*([^:=].*)$`)
@@ -402,6 +403,19 @@ func ParseContractFile(path, pkgPath string) (*ContractFile, error) {
 				default:
 					addErr(rc.line, "unknown loop clause %q", k2)
 				}
+			case "onlyprop":
+				// onlyprop <label> <property>: the clause belongs to that property only (a function
+				// under contract for several properties may carry a clause - e.g. a known finding -
+				// that is about one of them)
+				f := strings.Fields(rest)
+				if len(f) != 2 {
+					addErr(rc.line, "onlyprop <label> <property>")
+					continue
+				}
+				if cur.OnlyProp == nil {
+					cur.OnlyProp = map[string]string{}
+				}
+				cur.OnlyProp[f[0]] = f[1]
 			case "reveal":
 				if cur.Reveals == nil {
 					cur.Reveals = map[string]bool{}
